@@ -25,4 +25,26 @@ theorem peel_env {σ : Type} (Q : Res × σ → Prop) (stop : Bool) (inp : TxIn 
     Q (runSteps stop inp (.rejectIfEnv i src :: ts) M) := by
   rcases rejectIfEnv_step stop inp i src ts M with h | h <;> rw [h] <;> assumption
 
+/-- `runMsgs` over a list that contains a message which fails in EVERY state: the run fails -/
+theorem loopMsgsG_fails_of_refused {σ : Type} (f : σ → Res × σ) (hf : ∀ x, (f x).1 = .err) :
+    ∀ (pre post : List (σ → Res × σ)) (s : σ) (e : Res), (loopMsgsG true (pre ++ f :: post) s e).1 = .err := by
+  intro pre
+  induction pre with
+  | nil =>
+    intro post s e
+    simp only [List.nil_append, loopMsgsG]
+    rcases h : f s with ⟨r, s'⟩
+    have := hf s
+    rw [h] at this
+    simp only at this
+    subst this
+    simp
+  | cons g gs ih =>
+    intro post s e
+    simp only [List.cons_append, loopMsgsG]
+    rcases g s with ⟨r, s'⟩
+    cases r with
+    | ok => exact ih post s' .ok
+    | err => simp
+
 end FxVerif.Model.C16
